@@ -23,13 +23,13 @@ def build_pattern(pat, alts, pouts=None):
     from onnxscript.rewriter import pattern as P
 
     def fn(op, x, y):
-        env = {"x": x, "y": y}
+        env = {"x": x, "y": y, "z": P.Var("z", can_match_none=True)}
         outs = {}
         orvals = {}
 
         def val(pv, p_index):
             kind, name, a, b = pv
-            if kind == "var":
+            if kind in ("var", "varo"):
                 return env[name]
             if kind == "const":
                 return float(a)
@@ -155,7 +155,7 @@ def run_chunk(cases):
                     else:
                         cm = hit
             if m:
-                b = {n: (back.get(id(m.bindings[n]), -1) if m.bindings.get(n) is not None else 0) for n in ("x", "y") if n in m.bindings}
+                b = {n: (back.get(id(m.bindings[n]), -1) if m.bindings.get(n) is not None else 0) for n in ("x", "y", "z") if n in m.bindings}
                 ns = [int(n.name[1:]) for n in m.nodes]
                 out.append({"ok": True, "b": b, "ns": ns, "commuted": cm, "keep": km, "keep_commuted": kcm})
             else:
@@ -168,7 +168,7 @@ def run_chunk(cases):
 def describe(c):
     def pv(v):
         k, n, a, b = v
-        return {"var": n, "const": f"{a}.0", "none": "None", "out": f"p{a}.{b}", "or": f"Or{a}"}[k]
+        return {"var": n, "varo": f"{n}?", "const": f"{a}.0", "none": "None", "out": f"p{a}.{b}", "or": f"Or{a}"}[k]
     ps = [f"p{i}={pn['op']}({', '.join(pv(v) for v in pn['ins'])}{', a=' + str(pn['at']) if pn['at'][0] != 'any' else ''}"
           f"{', other_inputs' if pn['aoi'] else ''}{', no_other_attrs' if not pn['aoa'] else ''})" for i, pn in enumerate(c["pat"], 1)]
     al = [f"Or{k}=[{pv(a[0])}|{pv(a[1])}]" for k, a in enumerate(c["alts"], 1)]
@@ -181,8 +181,8 @@ def describe(c):
 
 def run(ctx: core.Ctx):
     cases = []
-    for cfg in (["Matcher_local.cfg", "Matcher_quick.cfg", "Matcher_multi.cfg"] if ctx.quick
-                else ["Matcher_local.cfg", "Matcher_quick.cfg", "Matcher_multi.cfg", "Matcher_multi_or.cfg", "Matcher_thorough.cfg"]):
+    for cfg in (["Matcher_local.cfg", "Matcher_quick.cfg", "Matcher_multi.cfg", "Matcher_attr2.cfg", "Matcher_optvar.cfg"] if ctx.quick
+                else ["Matcher_local.cfg", "Matcher_quick.cfg", "Matcher_multi.cfg", "Matcher_attr2.cfg", "Matcher_optvar.cfg", "Matcher_multi_or.cfg", "Matcher_thorough.cfg"]):
         res = core.run_tlc("Matcher", cfg, timeout=3000)
         ctx.tlc(res, cfg)
         if not res.ok:
@@ -213,7 +213,7 @@ def run(ctx: core.Ctx):
             continue
         model = c["impl"]
         declB = [dict(b) if isinstance(b, dict) else {} for b in c["declB"]]
-        got_b = {n: r["b"].get(n, 0) for n in ("x", "y")} if r["ok"] else None
+        got_b = {n: r["b"].get(n, 0) for n in ("x", "y", "z")} if r["ok"] else None
         mb = model["b"] if isinstance(model["b"], dict) else {}
         if r["ok"] != model["ok"] or (r["ok"] and ([mb.get(n, 0) for n in sorted(mb)] != [got_b.get(n, 0) for n in sorted(mb)] or r["ns"] != list(model["ns"]))):
             mism += 1
